@@ -215,6 +215,55 @@ let parse_program (s : string) : tstmt list list =
   in
   templates ()
 
+(* ---- render programs (C12): like children programs, plus D<site>:<hex> for a fallible site ---- *)
+let parse_fprogram (s : string) : fstmt list list =
+  let n = String.length s in
+  let pos = ref 0 in
+  let hexrun () =
+    let start = !pos in
+    while !pos < n && (match s.[!pos] with '0' .. '9' | 'a' .. 'f' | '~' -> true | _ -> false) do incr pos done;
+    bytes_of_hex (String.sub s start (!pos - start)) in
+  let numrun () =
+    let start = !pos in
+    while !pos < n && (match s.[!pos] with '0' .. '9' -> true | _ -> false) do incr pos done;
+    int_of_string (String.sub s start (!pos - start)) in
+  let rec stmts () : fstmt list =
+    if !pos >= n || s.[!pos] = ')' || s.[!pos] = '|' then []
+    else begin
+      let st = stmt () in
+      if !pos < n && s.[!pos] = ',' then incr pos;
+      st :: stmts ()
+    end
+  and stmt () : fstmt =
+    let c = s.[!pos] in
+    incr pos;
+    match c with
+    | 'L' -> FLit (hexrun ())
+    | 'D' -> let site = numrun () in incr pos; FDyn (nat_of_int site, hexrun ())
+    | 'C' -> FChildren
+    | 'R' -> FRender (nat_of_int (numrun ()), None)
+    | 'B' ->
+      let idx = nat_of_int (numrun ()) in
+      incr pos;
+      let b = stmts () in
+      incr pos;
+      FRender (idx, Some b)
+    | _ -> failwith "fstmt"
+  in
+  let rec templates () =
+    let t = stmts () in
+    if !pos < n && s.[!pos] = '|' then (incr pos; t :: templates ()) else [ t ]
+  in
+  templates ()
+
+let render_model (main : string) (mode : string) (failbits : string) (prog : string) : string =
+  let p = parse_fprogram prog in
+  let fails (site : nat) = let i = int_of_nat site in i < String.length failbits && failbits.[i] = '1' in
+  let m = match mode with "buf" -> WOk | "fail1" -> WFail | "short1" -> WShort | _ -> failwith "mode" in
+  let (acc, st) = render_top p fails (nat_of_int 400) (nat_of_int (int_of_string main)) m in
+  let sts = match st with SOk -> "ok" | SSite s -> Printf.sprintf "err-site%d" (int_of_nat s) | SWriter -> "err-writer" | SFuel -> "fuel" in
+  sts ^ " " ^ String.concat "," (List.map hex_of_bytes acc)
+
 (* ---- pool schedules: G<r>[:<choice>], W<r>:<hex>, F<r>:<0|1> separated by ',' ---- *)
 let parse_pstep (s : string) : pstep =
   let body = String.sub s 1 (String.length s - 1) in
@@ -232,6 +281,7 @@ let handle (line : string) : string =
     let i = nat_of_int (int_of_string main) in
     let a = exec_template p (nat_of_int 200) i and b = denote_template p (nat_of_int 200) i in
     "ok " ^ hex_of_bytes a ^ (if a = b then "" else " spec-differs")
+  | [ "rendermodel"; main; mode; failbits; prog ] -> render_model main mode failbits prog
   | [ "pool"; steps ] ->
     let w = pool_run (List.map parse_pstep (String.split_on_char ',' steps)) world_init in
     String.concat ";" (List.rev_map (fun (r, b) -> Printf.sprintf "%d=%s" (int_of_nat r) (hex_of_bytes b)) w.w_written)
